@@ -10,6 +10,7 @@ Abstraction ("partial: locks by appeal to C08"): a bucket / element mutex is its
 readers); a lock operation is one step; the code under a lock between two accesses to other shared words is one step.
 -/
 import TbbVerif.Proofs.C10.Glue
+import TbbVerif.Proofs.C10.RSize
 import TbbVerif.Generated.C10
 
 namespace TbbVerif.C10
@@ -298,6 +299,533 @@ theorem hmap_free_only_after_release (hash : Nat → Nat) (sh : Sh) (tid : Tid) 
     (h : (stepTh hash sh tid t alt).2.1.pc = .free) (hne : t.pc ≠ .free) : t.pc = .eRel :=
   free_only_after_eRel hash sh tid t alt h hne
 
+
+/-! # The refined model `HMapR` (Model/C10R.lean): real lock words
+
+`HMapR` replaces the specification locks of `HMap` by the state word of a `spin_rw_mutex` per bucket and per element,
+driven by C08's word-level model itself (`C08.step`): one step of `HMapR` is one atomic access of the real code (or the
+purely local call of a lock operation).  `rrun hash progs sched` is the state reached; `(rrun …).a` is its `HMap` component.
+
+What is imported from C08 (instantiated per lock — nothing about the mutex is assumed): `C08.Inv` with its proof of
+inductiveness `C08.inv_step` (reader count = transient + holding + upgrading readers; WRITER ⇔ exactly one exclusive
+holder / in-place upgrader; an exclusive holder excludes shared holders; PENDING only with a pending writer / upgrader;
+no borrow across bit fields), `C08.stepTh_good` / `C08.sv0_word` (a successful lock CAS proves the word was free), and
+the per-operation step functions of Model/C08.lean. -/
+
+open TbbVerif.C10R
+
+/-- **The functions whose lock usage `HMapR` transcribes have the statement skeletons it was written for** (regenerated from
+concurrent_hash_map.h on every run: comments, assertions, white space removed, parameters / locals / labels renamed
+positionally, adjacent independent call-free assignments sorted).  Notably: `bucket_accessor::acquire` tries the WRITER lock only when the flag is seen, re-checks the flag
+under the lock, and otherwise takes the lock as requested; `lookup` re-searches inside the `while (!is_writer && !upgrade)`
+loop, calls `check_mask_race` before `insert_new_node`, and takes the element lock with `try_acquire` in a bounded back-off
+loop that releases the bucket and restarts with a fresh mask; `internal_erase` re-checks the mask and searches again after a
+contended upgrade and takes the element lock as writer after the unlinking; `rehash_bucket` restarts its scan after a
+contended upgrade. -/
+theorem generated_lock_skeletons :
+    Generated.C10.acquireSkeleton =
+      ["(v0, v1, v2)",
+       "my_b = v0->get_bucket( v1 )",
+       "if (rehash_required(my_b->node_list.load(std::memory_order_acquire)) && bucket::scoped_type::try_acquire( my_b->mutex, true ) ) {",
+       "if (rehash_required(my_b->node_list.load(std::memory_order_relaxed))) v0->rehash_bucket(my_b, v1)",
+       "}",
+       "else bucket::scoped_type::acquire( my_b->mutex, v2 )"] ∧
+    Generated.C10.rehashBucketSkeleton =
+      ["(v0, v1)",
+       "v0->node_list.store(reinterpret_cast<node_base*>(empty_rehashed_flag), std::memory_order_release)",
+       "hashcode_type v2 = (hashcode_type(1) << tbb::detail::log2(v1)) - 1",
+       "bucket_accessor v3( this, v1 & v2 )",
+       "v2 = (v2<<1) | 1",
+       "L0: node_base* v4 = nullptr",
+       "node_base* v5 = v3()->node_list.load(std::memory_order_acquire)",
+       "while (this->is_valid(v5)) {",
+       "hashcode_type v6 = my_hash_compare.hash(static_cast<node*>(v5)->value().first)",
+       "if ((v6 & v2) == v1) {",
+       "if (!v3.is_writer()) {",
+       "if (!v3.upgrade_to_writer()) {",
+       "goto L0",
+       "}",
+       "}",
+       "node_base* v7 = v5->next",
+       "if (v4 == nullptr) {",
+       "v3()->node_list.store(v5->next, std::memory_order_relaxed)",
+       "}",
+       "else {",
+       "v4->next = v5->next",
+       "}",
+       "this->add_to_bucket(v0, v5)",
+       "v5 = v7",
+       "}",
+       "else {",
+       "v4 = v5",
+       "v5 = v5->next",
+       "}",
+       "}"] ∧
+    Generated.C10.lookupSkeleton =
+      ["(v0, v1, v2, v3, v4, v5)",
+       "bool v6",
+       "hashcode_type const v7 = my_hash_compare.hash( v0 )",
+       "hashcode_type v8 = this->my_mask.load(std::memory_order_acquire)",
+       "segment_index_type v9 = 0",
+       "node *v10",
+       "L0: {",
+       "v6 = false",
+       "bucket_accessor v11( this, v7 & v8 )",
+       "v10 = search_bucket( v0, v11() )",
+       "if( OpInsert ) {",
+       "if( !v10 ) {",
+       "if( !v5 ) {",
+       "v5 = allocate_node_helper(v0, v1, v4, std::integral_constant<bool, OpInsert>{})",
+       "}",
+       "while ( !v11.is_writer() && !v11.upgrade_to_writer() ) {",
+       "v10 = search_bucket(v0, v11())",
+       "if (this->is_valid(v10)) {",
+       "if (!v11.downgrade_to_reader()) {",
+       "v10 = search_bucket(v0, v11())",
+       "if (!this->is_valid(v10)) {",
+       "continue",
+       "}",
+       "}",
+       "goto L1",
+       "}",
+       "}",
+       "if( this->check_mask_race(v7, v8) ) goto L0",
+       "v9 = this->insert_new_node( v11(), v10 = v5, v8 )",
+       "v5 = nullptr",
+       "v6 = true",
+       "}",
+       "}",
+       "else {",
+       "if( !v10 ) {",
+       "if( this->check_mask_race( v7, v8 ) ) goto L0",
+       "return false",
+       "}",
+       "v6 = true",
+       "}",
+       "L1: if( !v2 ) goto L2",
+       "if( !v2->try_acquire( v10->mutex, v3 ) ) {",
+       "for( tbb::detail::atomic_backoff v12(true);; ) {",
+       "if( v2->try_acquire( v10->mutex, v3 ) ) break",
+       "if( !v12.bounded_pause() ) {",
+       "v11.release()",
+       "yield()",
+       "v8 = this->my_mask.load(std::memory_order_acquire)",
+       "goto L0",
+       "}",
+       "}",
+       "}",
+       "}",
+       "v2->my_hash = v7",
+       "v2->my_node = v10",
+       "L2: if( v9 ) {",
+       "this->enable_segment( v9 )",
+       "}",
+       "if( v5 ) delete_node( v5 )",
+       "return v6"] ∧
+    Generated.C10.excludeSkeleton =
+      ["(v0)",
+       "node_base *const v1 = v0.my_node",
+       "hashcode_type const v2 = v0.my_hash",
+       "hashcode_type v3 = this->my_mask.load(std::memory_order_acquire)",
+       "do {",
+       "bucket_accessor v4( this, v2 & v3, true )",
+       "node_base* v5 = nullptr",
+       "node_base* v6 = v4()->node_list.load(std::memory_order_relaxed)",
+       "while (v6 && v6 != v1) {",
+       "v5 = v6",
+       "v6 = v6->next",
+       "}",
+       "if (v6 == nullptr) {",
+       "if (this->check_mask_race(v2, v3)) continue",
+       "v0.release()",
+       "return false",
+       "}",
+       "if (v5 == nullptr) {",
+       "v4()->node_list.store(v6->next, std::memory_order_relaxed)",
+       "}",
+       "else {",
+       "v5->next = v6->next",
+       "}",
+       "this->my_size--",
+       "break",
+       "}",
+       "while(true)",
+       "if (!v0.is_writer()) {",
+       "v0.upgrade_to_writer()",
+       "}",
+       "v0.release()",
+       "delete_node(v1)",
+       "return true"] ∧
+    Generated.C10.internalEraseSkeleton =
+      ["(v0)",
+       "node_base *v1",
+       "hashcode_type const v2 = my_hash_compare.hash(v0)",
+       "hashcode_type v3 = this->my_mask.load(std::memory_order_acquire)",
+       "L0: {",
+       "bucket_accessor v4( this, v2 & v3 )",
+       "L1: node_base* v5 = nullptr",
+       "v1 = v4()->node_list.load(std::memory_order_relaxed)",
+       "while (this->is_valid(v1) && !my_hash_compare.equal(v0, static_cast<node*>(v1)->value().first ) ) {",
+       "v5 = v1",
+       "v1 = v1->next",
+       "}",
+       "if (v1 == nullptr) {",
+       "if (this->check_mask_race(v2, v3)) goto L0",
+       "return false",
+       "}",
+       "else if (!v4.is_writer() && !v4.upgrade_to_writer()) {",
+       "if (this->check_mask_race(v2, v3)) goto L0",
+       "goto L1",
+       "}",
+       "if (v5 == nullptr) {",
+       "v4()->node_list.store(v1->next, std::memory_order_relaxed)",
+       "}",
+       "else {",
+       "v5->next = v1->next",
+       "}",
+       "this->my_size--",
+       "}",
+       "{",
+       "typename node::scoped_type v6( v1->mutex, true )",
+       "}",
+       "delete_node(v1)",
+       "return true"] ∧
+    Generated.C10.checkMaskRaceSkeleton =
+      ["(v0, v1)",
+       "hashcode_type v2, v3 = v1",
+       "v2 = my_mask.load(std::memory_order_acquire)",
+       "if (v3 != v2) {",
+       "return check_rehashing_collision(v0, v3, v1 = v2)",
+       "}",
+       "return false"] ∧
+    Generated.C10.checkRehashingCollisionSkeleton =
+      ["(v0, v1, v2)",
+       "if( (v0 & v1) != (v0 & v2) ) {",
+       "for( ++v1; !(v0 & v1); v1 <<= 1 )",
+       "v1 = (v1<<1) - 1",
+       "if (!rehash_required(get_bucket(v0 & v1)->node_list.load(std::memory_order_acquire))) {",
+       "return true",
+       "}",
+       "}",
+       "return false"] ∧
+    Generated.C10.insertNewNodeSkeleton =
+      ["(v0, v1, v2)",
+       "size_type v3 = ++my_size",
+       "add_to_bucket( v0, v1 )",
+       "if( v3 >= v2 ) {",
+       "segment_index_type v4 = tbb::detail::log2( v2+1 )",
+       "static const segment_ptr_type v5 = segment_ptr_type(2)",
+       "segment_ptr_type v6 = nullptr",
+       "if (!(my_table[v4].load(std::memory_order_acquire)) && my_table[v4].compare_exchange_strong(v6, v5)) return v4",
+       "}",
+       "return 0"] ∧
+    Generated.C10.enableSegmentSkeleton =
+      ["(v0, v1)",
+       "size_type v2",
+       "if (v0 >= first_block) {",
+       "v2 = segment_size(v0)",
+       "segment_ptr_type v3 = nullptr",
+       "try_call( [&] { v3 = bucket_allocator_traits::allocate(my_allocator, v2); } ).on_exception( [&] { my_table[v0].store(nullptr, std::memory_order_relaxed); })",
+       "init_buckets(v3, v2, v1)",
+       "my_table[v0].store(v3, std::memory_order_release)",
+       "v2 <<= 1",
+       "}",
+       "else {",
+       "v2 = segment_size(first_block)",
+       "segment_ptr_type v3 = nullptr",
+       "try_call( [&] { v3 = bucket_allocator_traits::allocate(my_allocator, v2 - embedded_buckets); } ).on_exception( [&] { my_table[v0].store(nullptr, std::memory_order_relaxed); })",
+       "init_buckets(v3, v2 - embedded_buckets, v1)",
+       "v3 -= segment_base(embedded_block)",
+       "for(segment_index_type v4 = embedded_block; v4 < first_block; v4++) my_table[v4].store(v3 + segment_base(v4), std::memory_order_release)",
+       "}",
+       "my_mask.store(v2-1, std::memory_order_release)"] ∧
+    Generated.C10.getBucketSkeleton =
+      ["(v0)",
+       "segment_index_type v1 = segment_index_of( v0 )",
+       "v0 -= segment_base(v1)",
+       "segment_ptr_type v2 = my_table[v1].load(std::memory_order_acquire)",
+       "return &v2[v0]"] ∧
+    Generated.C10.addToBucketSkeleton =
+      ["(v0, v1)",
+       "v1->next = v0->node_list.load(std::memory_order_relaxed)",
+       "v0->node_list.store(v1, std::memory_order_relaxed)"] ∧
+    Generated.C10.searchBucketSkeleton =
+      ["(v0, v1)",
+       "node *v2 = static_cast<node*>( v1->node_list.load(std::memory_order_relaxed) )",
+       "while (this->is_valid(v2) && !my_hash_compare.equal(v0, v2->value().first)) v2 = static_cast<node*>( v2->next )",
+       "return v2"] := by
+  refine ⟨?_, ?_, ?_, ?_, ?_, ?_, ?_, ?_, ?_, ?_, ?_, ?_⟩ <;> rfl
+
+/-- **hmapr_refines.** Every run of `HMapR` (any threads, programs, schedule, hash function) projects onto a run of `HMap`:
+the `HMap` component of the reached state is the state `HMap` reaches under the schedule `absSched`.  Hence **every theorem
+above holds for the refined model** (`hmapr_transfer`). -/
+theorem hmapr_refines (hash : Nat → Nat) (progs : List (List Op)) (sched : List Act) :
+    (rrun hash progs sched).a = run hash progs (absSched hash progs sched) :=
+  rrun_a hash progs sched
+
+/-- whatever holds in every reachable state of `HMap` holds of the `HMap` component of every reachable state of `HMapR` -/
+theorem hmapr_transfer (hash : Nat → Nat) (progs : List (List Op)) (P : St → Prop) (h : ∀ sched, P (run hash progs sched))
+    (sched : List Act) : P (rrun hash progs sched).a := by
+  rw [hmapr_refines]; exact h _
+
+/-- e.g. linearizability, for the model with real lock words -/
+theorem hmapr_linearizable (hash : Nat → Nat) (progs : List (List Op)) (sched : List Act) :
+    let sh := (rrun hash progs sched).a.sh
+    ∃ s, specRun (fun _ => none) sh.hist.reverse = some s ∧ ∀ k, s k = sh.present hash k :=
+  hmapr_transfer hash progs (fun st => ∃ s, specRun (fun _ => none) st.sh.hist.reverse = some s ∧ ∀ k, s k = st.sh.present hash k)
+    (fun sched => hmap_linearizable hash progs sched) sched
+
+/-- **hmapr_locks_exact (the abstraction gap is closed).** In every reachable state of `HMapR`, for every bucket / element
+lock `L`: (1) C08's invariant holds of its word and per-thread protocol state, no arithmetic on the word ever borrowed
+across bit fields, no operation was ever called in a phase its precondition excludes; (2) the specification lock that
+`HMap` uses is EXACT: its writer is the thread in C08 phase `holdW` on the word, its readers are the threads in a shared
+phase (`holdR`, or upgrading in place), no reader is listed twice; (3) consequently at most one thread is in an exclusive
+phase on a word, and then no other thread is in a shared phase. -/
+theorem hmapr_locks_exact (hash : Nat → Nat) (progs : List (List Op)) (sched : List Act) (L : LId) :
+    let s := rrun hash progs sched
+    (C08.Inv (getL s L) ∧ (getL s L).bad = false ∧ ∀ i th, slot s L i = some th → th.misuse = false) ∧
+    (∀ i t th, s.a.ths[i]? = some t → slot s L i = some th →
+      ((lockOf s.a.sh L).w = some i ↔ th.phase = .holdW) ∧ (i ∈ (lockOf s.a.sh L).r ↔ phaseR th.phase)) ∧
+    (lockOf s.a.sh L).r.Nodup ∧
+    (∀ i j x y, slot s L i = some x → slot s L j = some y → i ≠ j → x.phase = .holdW ∨ x.phase = .upgReady →
+      y.phase = .idle ∨ y.phase = .rt) := by
+  have hC := coupled_reachable hash progs sched
+  refine ⟨⟨(hC.lk L).inv, (hC.lk L).inv.hbad, fun i th h => ((hC.lk L).clean i th h).1⟩, ?_, (hC.specN L).1, ?_⟩
+  · intro i t th ht hs; exact spec_exact hC L i t th ht hs
+  · intro i j x y hx hy hij hp; exact alone_of_writer (hC.lk L).inv hx hy hij hp
+
+/-- **hmap_upgrade_research.** An insert that lost the bucket lock during `upgrade_to_writer()` never links a duplicate:
+(1) in every reachable state of `HMapR`, a thread about to link its node (`insert_new_node`) holds the home bucket of the key
+with its word in C08 phase `holdW`, and the key is nowhere in the table; (2) the node is linked only right after
+`check_mask_race` let a search stand (pc `link` is entered only from `chk1` / `chk2`); (3) from the upgrade (pc `upg`) the
+mask check is reached directly only by the IN-PLACE upgrade (sole reader: nobody could have inserted in between); (4) when
+the upgrade dropped the lock (pc `relock`: in `HMapR` the operation in progress there is the `upgrade` in its slow path, C08
+phase idle: the thread holds nothing on the word), the step that re-acquires SEARCHES THE CHAIN AGAIN: it finds the key (→ `dng`, no insertion) or confirms it absent (→ `chk1`). -/
+theorem hmap_upgrade_research (hash : Nat → Nat) :
+    (∀ (progs : List (List Op)) (sched : List Act) (tid : Nat) (t : Th), (rrun hash progs sched).a.ths[tid]? = some t → t.pc = .link →
+      let s := rrun hash progs sched
+      t.stk = [(s.a.sh.home (hash t.op.key), true)] ∧ s.a.sh.present hash t.op.key = none ∧
+      ∃ th, slot s (.b (s.a.sh.home (hash t.op.key))) tid = some th ∧ th.phase = .holdW) ∧
+    (∀ sh tid t alt, (stepTh hash sh tid t alt).2.1.pc = .link → t.pc ≠ .link → t.pc = .chk1 ∨ t.pc = .chk2) ∧
+    (∀ sh tid t alt, t.pc = .upg → (stepTh hash sh tid t alt).2.1.pc = .chk1 →
+      alt = 0 ∧ ∃ b w, t.stk = [(b, w)] ∧ (sh.blk b).soleReader tid = true) ∧
+    (∀ (progs : List (List Op)) (sched : List Act) (tid : Nat) (t : Th) (r : RTh), (rrun hash progs sched).a.ths[tid]? = some t →
+      (rrun hash progs sched).rt[tid]? = some r → t.pc = .relock →
+      ∃ th, r.cur = some (.b t.tgt) ∧ slot (rrun hash progs sched) (.b t.tgt) tid = some th ∧ th.ops = [.upgrade] ∧ th.phase = .idle) ∧
+    (∀ sh tid t alt, t.pc = .relock →
+      ((stepTh hash sh tid t alt).2.1 = t ∧ (stepTh hash sh tid t alt).1 = sh) ∨
+      ((stepTh hash sh tid t alt).2.1.pc = .dng ∧ ∃ n, findKey (sh.chainOf t.tgt) t.op.key = some n ∧ (stepTh hash sh tid t alt).2.1.n = some n) ∨
+      ((stepTh hash sh tid t alt).2.1.pc = .chk1 ∧ findKey (sh.chainOf t.tgt) t.op.key = none)) := by
+  refine ⟨?_, fun sh tid t alt => link_only_after_chk hash sh tid t alt, fun sh tid t alt => upg_chk1_inplace hash sh tid t alt, ?_,
+    fun sh tid t alt => relock_researches hash sh tid t alt⟩
+  · intro progs sched tid t ht hpc
+    have hC := coupled_reachable hash progs sched
+    have hl : ∀ st : St, (∃ sched, st = run hash progs sched) → ∀ t, st.ths[tid]? = some t → t.pc = .link →
+        t.stk = [(st.sh.home (hash t.op.key), true)] ∧ (st.sh.blk (st.sh.home (hash t.op.key))).w = some tid ∧ st.sh.present hash t.op.key = none := by
+      rintro st ⟨sched, rfl⟩ t ht hpc
+      exact hmap_lookup_finds hash progs sched tid t ht hpc
+    obtain ⟨h1, h2, h3⟩ := hl _ ⟨_, hmapr_refines hash progs sched⟩ t ht hpc
+    obtain ⟨th, hs⟩ := slot_of hC ht (.b ((rrun hash progs sched).a.sh.home (hash t.op.key)))
+    exact ⟨h1, h3, th, hs, (hC.spec _ tid th hs).1 h2⟩
+  · intro progs sched tid t r ht hr hpc
+    have hC := coupled_reachable hash progs sched
+    have hne := (hC.th tid t r ht hr).inop (by rw [hpc]; rfl)
+    obtain ⟨L, hcur⟩ : ∃ L, r.cur = some L := by
+      cases hc : r.cur with
+      | none => exact absurd hc hne
+      | some L => exact ⟨L, rfl⟩
+    obtain ⟨th, op, hs, hops, _, hcok⟩ := (hC.th tid t r ht hr).cur L hcur
+    cases op with
+    | upgrade =>
+      rcases hcok with ⟨_, (⟨h, _⟩ | ⟨h, _⟩)⟩ | ⟨hph, _, (⟨_, hL⟩ | ⟨h, _⟩)⟩
+      · rw [hpc] at h; rcases h with h | h | h <;> cases h
+      · rw [hpc] at h; cases h
+      · subst hL; exact ⟨th, hcur, hs, hops, hph⟩
+      · rw [hpc] at h; cases h
+    | lock =>
+      rcases hcok.2 with ⟨h, _⟩ | ⟨h, _⟩
+      · rw [hpc] at h; rcases h with h | ⟨h, _⟩ <;> cases h
+      · rw [hpc] at h; cases h
+    | tryLock =>
+      rcases hcok.2 with ⟨h, _⟩ | ⟨h, _⟩ <;> (rw [hpc] at h; cases h)
+    | unlock =>
+      rcases hcok.2 with ⟨h, _⟩ | ⟨⟨a, h⟩, _⟩ | ⟨h, _⟩ | ⟨h, _⟩ | ⟨h, _⟩ | ⟨h, _⟩ <;> (rw [hpc] at h; cases h)
+    | lockShared =>
+      rcases hcok.2.1 with h | ⟨h, _⟩ <;> (rw [hpc] at h; cases h)
+    | tryLockShared => have h := hcok.2.1; rw [hpc] at h; cases h
+    | unlockShared =>
+      rcases hcok.2 with ⟨h, _⟩ | ⟨⟨a, h⟩, _⟩ | ⟨h, _⟩ | ⟨h, _⟩ | ⟨h, _⟩ | ⟨h, _⟩ <;> (rw [hpc] at h; cases h)
+    | downgrade => have h := hcok.2.1; rw [hpc] at h; cases h
+
+/-- **hmap_rehash_restart.** `rehash_bucket` whose `b_old.upgrade_to_writer()` dropped the parent's lock (pc `rhRelock`)
+uses nothing it saw before: the step that re-acquires the parent as writer splits the chain AS IT IS NOW (whatever was
+erased from / inserted into the parent meanwhile): the parent keeps exactly the nodes of its current chain that do not
+belong to the new bucket, the new bucket receives the others, no node of the current chain is lost or duplicated (`goto
+restart`; the model's thread state has no `prev` / `curr` to go stale).  In `HMapR` the operation in progress at `rhRelock` is
+the `upgrade` in its slow path (the thread is never stuck there): it holds nothing on the parent's word (C08 phase idle) until that step. -/
+theorem hmap_rehash_restart (hash : Nat → Nat) :
+    (∀ (sh : Sh) (tid : Tid) (t : Th) (alt : Nat) (c : Nat) (wc : Bool) (rest : List (Nat × Bool)),
+      t.pc = .rhRelock → t.stk = (c, wc) :: rest → (sh.blk (parentOf c)).isFree = true → parentOf c ≠ c →
+      ((sh.chainOf (parentOf c)).filter (fun n => movesTo c (hash n.key))).isEmpty = false →
+      let sh' := (stepTh hash sh tid t alt).1
+      sh'.chainOf (parentOf c) = (sh.chainOf (parentOf c)).filter (fun n => !movesTo c (hash n.key)) ∧
+      sh'.chainOf c = ((sh.chainOf (parentOf c)).filter (fun n => movesTo c (hash n.key))).reverse ∧
+      (∀ n, n ∈ sh.chainOf (parentOf c) ↔ n ∈ sh'.chainOf (parentOf c) ∨ n ∈ sh'.chainOf c)) ∧
+    (∀ (progs : List (List Op)) (sched : List Act) (tid : Nat) (t : Th) (r : RTh), (rrun hash progs sched).a.ths[tid]? = some t →
+      (rrun hash progs sched).rt[tid]? = some r → t.pc = .rhRelock →
+      ∃ th, r.cur = some (.b t.tgt) ∧ slot (rrun hash progs sched) (.b t.tgt) tid = some th ∧ th.ops = [.upgrade] ∧ th.phase = .idle) := by
+  constructor
+  · intro sh tid t alt c wc rest hpc hs hfree hbc hmv
+    have htgt : t.tgt = parentOf c := by unfold Th.tgt; rw [hs]
+    have hstep : (stepTh hash sh tid t alt).1 =
+        (afterAcq hash (sh.setBL (parentOf c) ((sh.blk (parentOf c)).setW tid)) tid { t with stk := (parentOf c, true) :: (c, wc) :: rest }).1 := by
+      unfold stepTh
+      rw [hpc]
+      simp only [htgt, hfree, if_true, hs]
+    have := hmap_rehash_split hash (sh.setBL (parentOf c) ((sh.blk (parentOf c)).setW tid)) tid
+      { t with stk := (parentOf c, true) :: (c, wc) :: rest } (parentOf c) c wc rest rfl hbc (by simpa using hmv)
+    simp only at this ⊢
+    rw [hstep]
+    obtain ⟨h1, h2, h3, _⟩ := this
+    exact ⟨h1, h2, h3⟩
+  · intro progs sched tid t r ht hr hpc
+    have hC := coupled_reachable hash progs sched
+    have hne := (hC.th tid t r ht hr).inop (by rw [hpc]; rfl)
+    obtain ⟨L, hcur⟩ : ∃ L, r.cur = some L := by
+      cases hc : r.cur with
+      | none => exact absurd hc hne
+      | some L => exact ⟨L, rfl⟩
+    obtain ⟨th, op, hs, hops, _, hcok⟩ := (hC.th tid t r ht hr).cur L hcur
+    cases op with
+    | upgrade =>
+      rcases hcok with ⟨_, (⟨h, _⟩ | ⟨h, _⟩)⟩ | ⟨hph, _, (⟨_, hL⟩ | ⟨h, _⟩)⟩
+      · rw [hpc] at h; rcases h with h | h | h <;> cases h
+      · rw [hpc] at h; cases h
+      · subst hL; exact ⟨th, hcur, hs, hops, hph⟩
+      · rw [hpc] at h; cases h
+    | lock =>
+      rcases hcok.2 with ⟨h, _⟩ | ⟨h, _⟩
+      · rw [hpc] at h; rcases h with h | ⟨h, _⟩ <;> cases h
+      · rw [hpc] at h; cases h
+    | tryLock =>
+      rcases hcok.2 with ⟨h, _⟩ | ⟨h, _⟩ <;> (rw [hpc] at h; cases h)
+    | unlock =>
+      rcases hcok.2 with ⟨h, _⟩ | ⟨⟨a, h⟩, _⟩ | ⟨h, _⟩ | ⟨h, _⟩ | ⟨h, _⟩ | ⟨h, _⟩ <;> (rw [hpc] at h; cases h)
+    | lockShared =>
+      rcases hcok.2.1 with h | ⟨h, _⟩ <;> (rw [hpc] at h; cases h)
+    | tryLockShared => have h := hcok.2.1; rw [hpc] at h; cases h
+    | unlockShared =>
+      rcases hcok.2 with ⟨h, _⟩ | ⟨⟨a, h⟩, _⟩ | ⟨h, _⟩ | ⟨h, _⟩ | ⟨h, _⟩ | ⟨h, _⟩ <;> (rw [hpc] at h; cases h)
+    | downgrade => have h := hcok.2.1; rw [hpc] at h; cases h
+
+/-- **hmap_no_deadlock_lock_order_partial.** The lock order of the map, in every reachable state of `HMapR`:
+(1) *element locks are only try-acquired while a bucket lock is held*: a thread in the middle of an operation on an element
+lock either performs a try / a release, or (blocking `lock` of `internal_erase`, `upgrade` of `exclude`) holds no bucket
+lock; (2) whatever a thread holds (C08 phase on the word: exclusive or shared) while it is inside a blocking operation on
+lock `L` is not below `L` in the order "buckets by index, then elements": buckets it holds have an index ≥ that of the
+bucket it waits for (a child bucket is locked before its parent, `parentOf c < c`; equal only for the lock it is upgrading),
+and a thread waiting for an element holds no bucket and no other element.  Hence there is no cyclic wait across different
+locks: along any chain "X waits for a lock held by Y, Y waits for …" the lock never increases, and it strictly decreases
+unless both wait for one and the same word.
+
+FULL STATEMENT (not proved here): in every reachable state in which some thread is unfinished, some thread has a step
+that is not an iteration of a wait loop, or waits for an accessor that a finished thread still holds.  What is missing is
+the single-word case (several threads blocked on ONE `spin_rw_mutex`), i.e. lifting C08's `rw_no_lost_grant` /
+`rw_handoff_no_loss` from fixed programs to the dynamically issued operations of the map; E-SHIM's deadlock monitor
+(bounded-preemption DFS + random + guided schedules, every live thread parked = deadlock) covers it by exploration. -/
+theorem hmap_no_deadlock_lock_order_partial (hash : Nat → Nat) (progs : List (List Op)) (sched : List Act)
+    (tid : Nat) (t : Th) (r : RTh) (L : LId) :
+    let s := rrun hash progs sched
+    s.a.ths[tid]? = some t → s.rt[tid]? = some r → r.cur = some L →
+    (∀ n, L = .e n → ∃ th op, slot s (.e n) tid = some th ∧ th.ops = [op] ∧
+      ((op = .tryLock ∨ op = .tryLockShared ∨ op = .unlock ∨ op = .unlockShared) ∨ t.stk = [])) ∧
+    (∀ L' th', (∃ th op, slot s L tid = some th ∧ th.ops = [op] ∧ (op = .lock ∨ op = .lockShared ∨ op = .upgrade)) →
+      slot s L' tid = some th' → th'.phase = .holdW ∨ phaseR th'.phase → LId.le L L') := by
+  intro s ht hr hcur
+  have hC := coupled_reachable hash progs sched
+  refine ⟨?_, ?_⟩
+  · intro n hL; subst hL; exact blocking_elem_no_bucket hC ht hr hcur
+  · intro L' th' hblk hs' hheld; exact lock_order hC ht hr hcur hblk hs' hheld
+
+/-- **hmap_erase_waits_for_accessors.** In every reachable state of `HMapR`: (1) a thread that is about to release the element
+lock before `delete_node` (pc `eRel`: `internal_erase` after `item_locker( mutex, write=true )`, `exclude` after the
+upgrade) is in C08 phase `holdW` on the element's word — so WRITER is set, every other thread is idle (or a transient
+reader about to undo) on that word and no other thread has an accessor to the element; (2) at `delete_node` (pc `free`) the
+word is back to "no holder": no thread is in a holding phase, no thread has an accessor to the node, the node is unlinked,
+and the thread that frees it is the one that unlinked it; (3) `free` is entered only from `eRel` (the release of the lock
+held as writer): the node is destroyed only after all accessors were released. -/
+theorem hmap_erase_waits_for_accessors (hash : Nat → Nat) (progs : List (List Op)) (sched : List Act) :
+    let s := rrun hash progs sched
+    (∀ (i : Nat) (ti : Th), s.a.ths[i]? = some ti → ti.pc = .eRel → ∃ n th, ti.n = some n ∧ slot s (.e n) i = some th ∧
+      th.phase = .holdW ∧ (getL s (.e n)).word.w = true ∧
+      (∀ j x, slot s (.e n) j = some x → j ≠ i → x.phase = .idle ∨ x.phase = .rt) ∧
+      (∀ (j : Nat) (tj : Th) (w : Bool), s.a.ths[j]? = some tj → j ≠ i → tj.acc ≠ some (n, w))) ∧
+    (∀ (i : Nat) (ti : Th), s.a.ths[i]? = some ti → ti.pc = .free → ∃ n, ti.n = some n ∧ s.a.sh.unlinker n = some i ∧ ¬ IsLinked s.a.sh n ∧
+      (∀ (j : Nat) (tj : Th) (x : C08.Th), s.a.ths[j]? = some tj → slot s (.e n) j = some x → x.phase ≠ .holdW ∧ ¬ phaseR x.phase) ∧
+      (∀ (j : Nat) (tj : Th) (w : Bool), s.a.ths[j]? = some tj → tj.acc ≠ some (n, w))) ∧
+    (∀ sh tid t alt, (stepTh hash sh tid t alt).2.1.pc = .free → t.pc ≠ .free → t.pc = .eRel) := by
+  intro s
+  have hC := coupled_reachable hash progs sched
+  have hexcl := hmapr_transfer hash progs
+    (fun st => (∀ (i : Nat) (ti : Th), st.ths[i]? = some ti → ti.pc = .free → ∃ n, ti.n = some n ∧ st.sh.unlinker n = some i ∧ ¬ IsLinked st.sh n ∧
+        ∀ (j : Nat) (tj : Th) (w : Bool), st.ths[j]? = some tj → tj.acc ≠ some (n, w)) ∧
+      (∀ (i : Nat) (ti : Th), st.ths[i]? = some ti → ti.pc = .eRel → ∃ n, ti.n = some n ∧ (st.sh.elk n).w = some i ∧ st.sh.unlinker n = some i) ∧
+      (∀ (i : Nat) (ti : Th), st.ths[i]? = some ti → ti.pc = .free → ∃ n, ti.n = some n ∧ (st.sh.elk n).w = none ∧ (st.sh.elk n).r = []))
+    (fun sched => by
+      have h := hmap_accessor_excl hash progs sched
+      refine ⟨h.2.2.1, h.2.2.2, ?_⟩
+      intro i ti hi hpc
+      have hd := ((invAll_reachable hash progs sched).i2.th i ti hi).d
+      rw [hpc] at hd
+      simp only [DAt] at hd
+      obtain ⟨_, n, hn, hw, hr⟩ := hd
+      exact ⟨n, hn, hw, hr⟩) sched
+  obtain ⟨hfree, herel, hfree2⟩ := hexcl
+  refine ⟨?_, ?_, fun sh tid t alt => free_only_after_eRel hash sh tid t alt⟩
+  · intro i ti hi hpc
+    obtain ⟨n, hn, hw, _⟩ := herel i ti hi hpc
+    obtain ⟨th, hs⟩ := slot_of hC hi (.e n)
+    have hph : th.phase = .holdW := (hC.spec (.e n) i th hs).1 hw
+    have hoth : ∀ j x, slot s (.e n) j = some x → j ≠ i → x.phase = .idle ∨ x.phase = .rt :=
+      fun j x hx hj => alone_of_writer (hC.lk (.e n)).inv hs hx (Ne.symm hj) (Or.inl hph)
+    refine ⟨n, th, hn, hs, hph, w_of_holdW (hC.lk (.e n)).inv hs hph, hoth, ?_⟩
+    intro j tj w hj hji ha
+    obtain ⟨x, hx, hp⟩ := acc_phase hC hj ha
+    cases w
+    · simp only [Bool.false_eq_true, if_false] at hp
+      rcases hoth j x hx hji with h | h <;> rw [h] at hp <;> rcases hp with hp | hp | hp <;> cases hp
+    · simp only [if_true] at hp
+      rcases hoth j x hx hji with h | h <;> rw [h] at hp <;> cases hp
+  · intro i ti hi hpc
+    obtain ⟨n, hn, hu, hl, hacc⟩ := hfree i ti hi hpc
+    obtain ⟨n', hn', hw, hr⟩ := hfree2 i ti hi hpc
+    rw [hn] at hn'; cases hn'
+    refine ⟨n, hn, hu, hl, ?_, hacc⟩
+    intro j tj x hj hx
+    have := spec_exact hC (.e n) j tj x hj hx
+    simp only [lockOf] at this
+    refine ⟨fun h => ?_, fun h => ?_⟩
+    · have := this.1.2 h; rw [hw] at this; cases this
+    · have := this.2.2 h; rw [hr] at this; cases this
+
+/-- **hmap_mask_race_safe.** An operation that computed its bucket with a stale mask never reports "absent" for a present key
+that a concurrent rehash moved: in `HMap` (hence, by `hmapr_refines`, in `HMapR`, whose steps are `HMap` steps) a step that
+appends a FAILED find / count / erase-by-key to the linearization does so in a state whose table does not contain the key —
+the search ended in the key's home bucket, or `check_mask_race` / `check_rehashing_collision` sent it back (`restart`). -/
+theorem hmap_mask_race_safe (hash : Nat → Nat) (progs : List (List Op)) (sched : List Act) (a : Act) (e : HEv)
+    (hh : (step hash (run hash progs sched) a).sh.hist = e :: (run hash progs sched).sh.hist)
+    (hk : e.k = .find ∨ e.k = .count ∨ e.k = .erase) (hok : e.ok = false) :
+    (run hash progs sched).sh.present hash e.key = none :=
+  negative_result_absent hash progs sched a e hh hk hok
+
+/-- **hmap_size_exact.** `my_size` is exact: in every reachable state of `HMap` — and of `HMapR` — it equals the number of
+linked nodes (the sum of the chain lengths over the buckets below the mask); in particular at quiescence `size()` is the
+number of keys in the table. -/
+theorem hmap_size_exact (hash : Nat → Nat) (progs : List (List Op)) (sched : List Act) :
+    (run hash progs sched).sh.size = sumLen (run hash progs sched).sh.chainOf (2 ^ (run hash progs sched).sh.lvl) ∧
+    (rrun hash progs sched).a.sh.size = sumLen (rrun hash progs sched).a.sh.chainOf (2 ^ (rrun hash progs sched).a.sh.lvl) :=
+  ⟨size_reachable hash progs sched, hmapr_transfer hash progs (fun st => SizeInv st.sh) (fun sched => size_reachable hash progs sched) sched⟩
+
 /-! ## Non-vacuity: a concrete run with growth, lazy rehash, a losing insert, an accessor, erase by accessor -/
 
 /-- thread 0 inserts key 5 through an accessor (the table grows from 2 to 256 buckets) and releases it; thread 1 tries to
@@ -340,5 +868,74 @@ example : ((run id exProgs (List.replicate 12 { tid := 0 })).ths.map (fun t => t
 
 -- bucket arithmetic: bucket 300 lives in segment 8 at offset 44, its parent is 44, and 300 is the child of 44 for hash 300
 example : bucketAddr 300 = (8, 44) ∧ parentOf 300 = 44 ∧ movesTo 300 300 = true ∧ movesTo 300 44 = false ∧ allocOf 300 = (2, 44) := by decide
+
+/-! ## Non-vacuity for the refined model: concrete runs of `HMapR` (kernel-evaluated) -/
+
+/-- thread 0, then thread 1, then thread 2 run alone (every step one access) -/
+def rSched (a b c : Nat) : List Act := List.replicate a { tid := 0 } ++ List.replicate b { tid := 1 } ++ List.replicate c { tid := 2 }
+
+-- the refined run of `exProgs` yields the same linearization as the `HMap` run above, all lock words are back to 0
+set_option maxRecDepth 1000000 in
+example : (rrun id exProgs (rSched 60 250 120)).a.sh.hist.map (fun e => (e.tid, e.key, e.ok)) =
+    [(2, 5, false), (2, 5, false), (1, 5, true), (1, 5, true), (1, 5, false), (0, 5, true)] ∧
+    ((rrun id exProgs (rSched 60 250 120)).bw 1).word.enc = 0 ∧ ((rrun id exProgs (rSched 60 250 120)).bw 5).word.enc = 0 := by decide
+
+-- hmap_no_deadlock_lock_order_partial: thread 1 is inside `upgrade` on bucket 1 (the parent) while it holds bucket 5 (the child)
+-- exclusively: C08 phase holdW on the word of bucket 5, holdR on that of bucket 1; 1 ≤ 5
+set_option maxRecDepth 1000000 in
+example : let s := rrun id exProgs (rSched 60 11 0)
+    (s.a.ths.map (fun t => (t.pc, t.stk)))[1]? = some (Pc.rhUpg, [(1, false), (5, true)]) ∧ (s.rt.map (·.cur))[1]? = some (some (LId.b 1)) ∧
+    ((s.bw 5).ths.map (·.phase))[1]? = some C08.Phase.holdW ∧ ((s.bw 1).ths.map (fun th => (th.phase, th.ops)))[1]? = some (C08.Phase.holdR, [C08.Op.upgrade]) := by decide
+
+-- hmap_erase_waits_for_accessors: thread 1 (erase by accessor) at `eRel` holds the element's word exclusively (WRITER set), at `free` the word is 0
+set_option maxRecDepth 1000000 in
+example : let s := rrun id exProgs (rSched 60 42 0)
+    (s.a.ths.map (·.pc))[1]? = some Pc.eRel ∧ ((s.ew { id := 0, key := 5, val := 7 }).ths.map (·.phase))[1]? = some C08.Phase.holdW ∧
+    (s.ew { id := 0, key := 5, val := 7 }).word.enc = 1 ∧
+    ((rrun id exProgs (rSched 60 44 0)).a.ths.map (·.pc))[1]? = some Pc.free ∧ ((rrun id exProgs (rSched 60 44 0)).ew { id := 0, key := 5, val := 7 }).word.enc = 0 := by decide
+
+/-- two inserts of the same key into one bucket (constant hash), strictly alternating: both read-lock the bucket, both upgrade -/
+def cProgs : List (List Op) := [[{ k := .ins, key := 5, val := 7 }], [{ k := .ins, key := 5, val := 8 }]]
+def alt2 (n : Nat) : List Act := (List.range n).map (fun i => { tid := i % 2 })
+
+-- hmap_upgrade_research (4): after 20 accesses thread 0 has set WRITER|PENDING and has seen the other reader leave (word = 7: W, P, its own reader unit), thread 1's
+-- `upgrade` has taken the slow path and dropped the lock (pc `relock`, operation still in progress on bucket 1)
+set_option maxRecDepth 1000000 in
+example : (rrun (fun _ => 1) cProgs (alt2 20)).a.ths.map (·.pc) = [Pc.upg, Pc.relock] ∧
+    (rrun (fun _ => 1) cProgs (alt2 20)).rt.map (·.cur) = [some (.b 1), some (.b 1)] ∧
+    ((rrun (fun _ => 1) cProgs (alt2 20)).bw 1).word.enc = 7 ∧
+    ((rrun (fun _ => 1) cProgs (alt2 20)).bw 1).ths.map (fun th => (th.phase, th.ops)) =
+      [(C08.Phase.upgReady, [C08.Op.upgrade]), (C08.Phase.idle, [C08.Op.upgrade])] := by decide
+
+-- … and in the end exactly one insert won: the loser re-searched, found the key and returned false; my_size = 1 (hmap_size_exact)
+set_option maxRecDepth 1000000 in
+example : (rrun (fun _ => 1) cProgs (alt2 120)).a.ths.map (fun t => t.results.map (·.1)) = [[true], [false]] ∧
+    (rrun (fun _ => 1) cProgs (alt2 120)).a.sh.size = 1 ∧ sumLen (rrun (fun _ => 1) cProgs (alt2 120)).a.sh.chainOf (2 ^ (rrun (fun _ => 1) cProgs (alt2 120)).a.sh.lvl) = 1 := by decide
+
+/-- thread 0 inserts key 5 (the table grows), thread 1 counts key 5 (lazy rehash of bucket 5 from bucket 1), thread 2 inserts key 1 -/
+def hProgs : List (List Op) := [[{ k := .ins, key := 5, val := 7 }], [{ k := .count, key := 5 }], [{ k := .ins, key := 1, val := 9 }]]
+def rhSched (a b c : Nat) : List Act :=
+  List.replicate 60 { tid := 0 } ++ List.replicate a { tid := 1 } ++ List.replicate b { tid := 2 } ++ List.replicate c { tid := 1 }
+
+-- hmap_rehash_restart: the rehashing thread's upgrade of the parent lost against the inserter's (pc `rhRelock`, holding only the new
+-- bucket 5; the inserter waits in place with WRITER|PENDING set); the hypotheses of the first part are satisfiable there
+set_option maxRecDepth 1000000 in
+example : let s := rrun id hProgs (rhSched 10 8 3)
+    s.a.ths.map (fun t => (t.pc, t.stk)) = [(Pc.idle, []), (Pc.rhRelock, [(5, true)]), (Pc.upg, [(1, false)])] ∧
+    (s.bw 1).word.enc = 7 ∧ (s.a.sh.chainOf 1).map (·.key) = [5] ∧ parentOf 5 = 1 ∧
+    ((s.a.sh.chainOf (parentOf 5)).filter (fun n => movesTo 5 (id n.key))).isEmpty = false := by decide
+
+-- … after both finished: key 1 (inserted while the lock was dropped) stayed in bucket 1, key 5 moved to bucket 5, count(5) = true
+set_option maxRecDepth 1000000 in
+example : let s := rrun id hProgs (rhSched 10 8 3 ++ List.replicate 60 { tid := 2 } ++ List.replicate 60 { tid := 1 })
+    (s.a.sh.chainOf 1).map (·.key) = [1] ∧ (s.a.sh.chainOf 5).map (·.key) = [5] ∧ s.a.sh.size = 2 ∧
+    s.a.ths.map (fun t => t.results.map (·.1)) = [[true], [true], [true]] := by decide
+
+-- hmap_mask_race_safe: the step that appends thread 2's failed erase to the linearization (hypotheses satisfiable)
+set_option maxRecDepth 100000 in
+example : ∃ (a : Act) (e : HEv), (step id (run id exProgs (List.replicate 14 { tid := 0 } ++ List.replicate 60 { tid := 1 } ++ List.replicate 3 { tid := 2 })) a).sh.hist =
+      e :: (run id exProgs (List.replicate 14 { tid := 0 } ++ List.replicate 60 { tid := 1 } ++ List.replicate 3 { tid := 2 })).sh.hist ∧
+    e.k = .erase ∧ e.ok = false :=
+  ⟨{ tid := 2 }, { tid := 2, k := .erase, key := 5, ok := false, node := none }, by decide, rfl, rfl⟩
 
 end TbbVerif.C10
